@@ -8,11 +8,13 @@
 (*   no offset (Cel, degF) and no logarithmic unit on either side:         *)
 (*      equal dimensions            -> "linear"    x * F(A) / F(B)         *)
 (*      exactly negated dimensions  -> "inverse"   1 / (x * F(A)) / F(B)   *)
-(*      no unit -> radian           -> "nounit_rad" x / F(B)               *)
+(*      no unit -> radian           -> "nounit_rad" x * F(A) / F(B)        *)
+(*        (no unit: none at all, or a dimensionless combination of         *)
+(*         dimensional units, which Quantity folds into the number)        *)
 (*      otherwise                   -> "reject"   (raises, quantity kept)  *)
 (*   an offset unit occurs:  both sides one temperature unit, exponent 1   *)
 (*      -> "affine" (C05);  dimensions neither equal nor negated -> reject;*)
-(*      other units present -> reject (documented);  else unspecified      *)
+(*      else unspecified                                                   *)
 (*   a logarithmic unit occurs: a documented pair -> "log:<kind>" (C05);   *)
 (*      dimensions neither equal nor negated -> reject;  else unspecified  *)
 (*                                                                         *)
@@ -32,6 +34,12 @@ IsRad1(B) == Len(B) = 1 /\ IdName(B[1][1]) = "rad" /\ B[1][2] = QOne
 SingleTemp(A) == Len(A) = 1 /\ A[1][2] = QOne /\ IdName(A[1][1]) \in TempNames
                /\ (A[1][1][2] = 0 \/ IdName(A[1][1]) = "K")
 
+\* Quantity.__init__: when the total dimension is zero, every unit that is itself dimensional is folded into
+\* the magnitude and dropped (documented: "reset base units if dimensions are all zero") - a dimensionless
+\* combination of dimensional units is a bare number
+IsDimless(r) == IdDim(r) = DZero
+Fold(A) == IF DimSum(A) = DZero THEN SelectSeq(A, LAMBDA x : IsDimless(x[1])) ELSE A
+
 Rule(A, B) ==
   LET da == DimSum(A)  db == DimSum(B)
       off == (Names(A) \cup Names(B)) \cap OffsetNames # {}
@@ -39,13 +47,11 @@ Rule(A, B) ==
   IN IF ~off /\ ~lg THEN
           (IF da = db THEN "linear"
            ELSE IF da = DNeg(db) THEN "inverse"
-           ELSE IF A = <<>> /\ IsRad1(B) THEN "nounit_rad"
+           ELSE IF Fold(A) = <<>> /\ IsRad1(B) THEN "nounit_rad"
            ELSE "reject")
      ELSE IF off THEN
           (IF SingleTemp(A) /\ SingleTemp(B) THEN "affine"
            ELSE IF da # db /\ da # DNeg(db) THEN "reject"
-           ELSE IF lg THEN "unspecified"
-           ELSE IF Len(A) > 1 \/ Len(B) > 1 THEN "reject"
            ELSE "unspecified")
      ELSE (IF LogPair(A, B) # "" THEN "log:" \o LogPair(A, B)
            ELSE IF da # db /\ da # DNeg(db) THEN "reject"
@@ -56,7 +62,7 @@ Accepts(r) == r \in {"linear", "inverse", "nounit_rad", "affine"} \/ (r # "rejec
 (* ------------------------------------------------------------ value obligations (terms) *)
 ExpectTerm(r, A, B) ==
   CASE r = "linear"     -> <<"div", <<"mul", X, FactorTerm(A)>>, FactorTerm(B)>>
-    [] r = "nounit_rad" -> <<"div", X, FactorTerm(B)>>
+    [] r = "nounit_rad" -> <<"div", <<"mul", X, FactorTerm(A)>>, FactorTerm(B)>>
     [] r = "inverse"    -> <<"div", <<"inv", <<"mul", X, FactorTerm(A)>>>>, FactorTerm(B)>>
     [] OTHER            -> Q(0, 1)
 \* the intermediate x*F(A) the property's "up to rounding" clause needs to stay inside a double
@@ -67,7 +73,7 @@ ArrayMags  == << Q(1, 1), Q(-3, 1), <<"mul", Q(25, 1), P10(-8)>>, Q(4, 1) >>
 
 (* ------------------------------------------------------------ MACHINE    *)
 MRule(A, B) ==
-  LET u1 == NameSeq(A)  u2 == NameSeq(B)
+  LET u1 == NameSeq(Fold(A))  u2 == NameSeq(B)
       all == {u1[i] : i \in 1..Len(u1)} \cup {u2[i] : i \in 1..Len(u2)}
       da == DimSum(A)  db == DimSum(B)
   IN IF all \cap MTempProcess # {} THEN
@@ -81,7 +87,7 @@ MRule(A, B) ==
            ELSE "reject")
      ELSE IF da = db THEN "linear"
      ELSE IF DNeg(da) = db THEN "inverse"
-     ELSE IF A = <<>> /\ u2 = <<"rad">> THEN "linear"
+     ELSE IF Fold(A) = <<>> /\ u2 = <<"rad">> THEN "linear"
      ELSE "reject"                                                             \* Unsupported conversion between units
 MAccepts(m) == m # "reject"
 
@@ -89,7 +95,7 @@ MAccepts(m) == m # "reject"
 ConvTags(A, B) ==
   LET da == DimSum(A)  db == DimSum(B)
       mism == da # db /\ da # DNeg(db) IN
-  (IF A = <<>> /\ B # <<>> /\ Names(B) = {"rad"} /\ ~IsRad1(B) THEN {"nounit_to_rad_power"} ELSE {})
+  (IF Fold(A) = <<>> /\ B # <<>> /\ Names(B) = {"rad"} /\ ~IsRad1(B) THEN {"nounit_to_rad_power"} ELSE {})
   \cup (IF mism /\ (Names(A) \cup Names(B)) \cap OffsetNames # {} THEN {"offset_dim_mismatch"} ELSE {})
   \cup (IF mism /\ (Names(A) \cup Names(B)) \cap LogNames # {} THEN {"log_dim_mismatch"} ELSE {})
   \cup (IF A = <<>> THEN {"nounit"} ELSE {})
